@@ -23,6 +23,7 @@ EXITS = (ast.Return, ast.Continue, ast.Break, ast.Raise)
 def default_atom_facts(t: ast.AST) -> tuple:
     """Facts used by several properties:
       ("minlen", name, k)       len(name) >= k
+      ("maxlen", name, k)       len(name) <= k
       ("isdecimal", text) / ("isdigit", text)
       ("in", key_text, container_text)
       ("truthy", text)
@@ -55,12 +56,16 @@ def default_atom_facts(t: ast.AST) -> tuple:
         if ln is not None and k is not None:
             if isinstance(op, ast.GtE):
                 T.add(("minlen", ln, k))
+                F.add(("maxlen", ln, k - 1))
             elif isinstance(op, ast.Gt):
                 T.add(("minlen", ln, k + 1))
+                F.add(("maxlen", ln, k))
             elif isinstance(op, ast.Lt):
                 F.add(("minlen", ln, k))
+                T.add(("maxlen", ln, k - 1))
             elif isinstance(op, ast.LtE):
                 F.add(("minlen", ln, k + 1))
+                T.add(("maxlen", ln, k))
             elif isinstance(op, ast.Eq):
                 T.add(("minlen", ln, k))
                 if k == 0:
@@ -78,8 +83,10 @@ def default_atom_facts(t: ast.AST) -> tuple:
                 T.add(("minlen", ln, k + 1))
             elif isinstance(op, ast.Gt):
                 F.add(("minlen", ln, k))
+                T.add(("maxlen", ln, k - 1))
             elif isinstance(op, ast.GtE):
                 F.add(("minlen", ln, k + 1))
+                T.add(("maxlen", ln, k))
             return T, F
         if isinstance(op, ast.In):
             T.add(("in", u(l), u(r)))
@@ -90,6 +97,12 @@ def default_atom_facts(t: ast.AST) -> tuple:
         elif isinstance(op, ast.Is) and isinstance(r, ast.Constant) and r.value is None:
             F.add(("notnone", u(l)))
     return T, F
+
+INT_MAX_STR_DIGITS = 4300   # CPython >= 3.11: int("9" * 4301) raises ValueError
+
+
+def bounded_digits(facts, et: str) -> bool:
+    return any(f[0] == "maxlen" and f[1] == et and f[2] <= INT_MAX_STR_DIGITS for f in facts if len(f) == 3)
 
 
 class GuardWalker:
